@@ -617,7 +617,11 @@ def cases_shared(ctx, rng, leaf):
         et = enc_expr(pure)
         spec = 'c15.spec_dot %s %s %s %s' % (et, enc_vec(x), impl[3:], TOL_TOK) if impl.startswith('ok ') else None
         sig = {'entry': ENTRY[kind], 'shared_operand': True, 'pattern': name}
-        out.append(Case(('shared', name, et, enc_vec(x)), sig, 'c15.dot %s %s' % (et, enc_vec(x)), impl, spec,
+        run = 'c15.dot %s %s' % (et, enc_vec(x))
+        if kind == 'con':
+            # the model of the code as it is: CoNeighbor arithmetic works in place on the one shared object
+            run = 'c15.shared %s %s %s %s' % (name, enc_mat(leaf[1]), enc_bool(leaf[2]), enc_vec(x))
+        out.append(Case(('shared', name, et, enc_vec(x)), sig, run, impl, spec,
                         leaf[1].nnz > 0, {'shared': name, 'leaf': expr_desc(leaf), 'x': [float(v) for v in x]}, canon='vec'))
     return out
 
